@@ -197,3 +197,116 @@ func VerifC43_hooks() {
 	verifAssert(inner.calls == 0, "the wrapped client is reached only through the hook")
 	verifAssert(hook.client != nil, "the hook is handed a client to forward to")
 }
+
+// ---- chained hooks: WithHook(WithHook(c, h1), h2); both hooks forward to the client they are handed
+
+type verifFwdHook struct {
+	name string
+	n    int
+}
+
+func (h *verifFwdHook) Do(client rueidis.Client, ctx context.Context, cmd rueidis.Completed) rueidis.RedisResult {
+	h.n++
+	return client.Do(ctx, cmd)
+}
+func (h *verifFwdHook) DoMulti(client rueidis.Client, ctx context.Context, multi ...rueidis.Completed) []rueidis.RedisResult {
+	h.n++
+	return client.DoMulti(ctx, multi...)
+}
+func (h *verifFwdHook) DoCache(client rueidis.Client, ctx context.Context, cmd rueidis.Cacheable, ttl time.Duration) rueidis.RedisResult {
+	h.n++
+	return client.DoCache(ctx, cmd, ttl)
+}
+func (h *verifFwdHook) DoMultiCache(client rueidis.Client, ctx context.Context, multi ...rueidis.CacheableTTL) []rueidis.RedisResult {
+	h.n++
+	return client.DoMultiCache(ctx, multi...)
+}
+func (h *verifFwdHook) Receive(client rueidis.Client, ctx context.Context, subscribe rueidis.Completed, fn func(msg rueidis.PubSubMessage)) error {
+	h.n++
+	return client.Receive(ctx, subscribe, fn)
+}
+func (h *verifFwdHook) DoStream(client rueidis.Client, ctx context.Context, cmd rueidis.Completed) rueidis.RedisResultStream {
+	h.n++
+	return client.DoStream(ctx, cmd)
+}
+func (h *verifFwdHook) DoMultiStream(client rueidis.Client, ctx context.Context, multi ...rueidis.Completed) rueidis.MultiRedisResultStream {
+	h.n++
+	return client.DoMultiStream(ctx, multi...)
+}
+
+var verifNodeClients = map[string]*verifInner{}
+
+type verifInnerNodes struct{ verifInner }
+
+func (c *verifInnerNodes) Nodes() map[string]rueidis.Client {
+	out := map[string]rueidis.Client{}
+	for k, v := range verifNodeClients {
+		out[k] = v
+	}
+	return out
+}
+
+// VerifC43_chained: two hooks stacked (tracing + metrics, say): every request path runs through
+// each of them exactly once and reaches the underlying client exactly once.
+func VerifC43_chained() {
+	verifNodeClients = map[string]*verifInner{"n1": {name: "n1"}, "n2": {name: "n2"}}
+	inner := &verifInnerNodes{verifInner{name: "root"}}
+	h1, h2 := &verifFwdHook{name: "h1"}, &verifFwdHook{name: "h2"}
+	wrapped := WithHook(WithHook(inner, h1), h2)
+	ctx := context.Background()
+	var cmd rueidis.Completed
+	var cache rueidis.Cacheable
+	var c rueidis.Client = wrapped
+	var d rueidis.DedicatedClient
+	target := &inner.verifInner
+	switch verifChoose(4) {
+	case 1:
+		nodes := wrapped.Nodes()
+		verifAssert(len(nodes) == 2, "Nodes keeps every node")
+		name := []string{"n1", "n2"}[verifChoose(2)]
+		c = nodes[name]
+		target = verifNodeClients[name]
+		verifReach("nodes")
+	case 2:
+		dd, cancel := wrapped.Dedicate()
+		defer cancel()
+		d = dd
+	case 3:
+		_ = wrapped.Dedicated(func(dd rueidis.DedicatedClient) error {
+			d = dd
+			return nil
+		})
+	}
+	if d != nil {
+		switch verifChoose(3) {
+		case 0:
+			d.Do(ctx, cmd)
+		case 1:
+			d.DoMulti(ctx, cmd)
+		default:
+			d.Receive(ctx, cmd, func(rueidis.PubSubMessage) {})
+		}
+		verifReach("dedicated")
+	} else {
+		switch verifChoose(7) {
+		case 0:
+			c.Do(ctx, cmd)
+		case 1:
+			c.DoMulti(ctx, cmd)
+		case 2:
+			c.DoCache(ctx, cache, time.Second)
+		case 3:
+			c.DoMultiCache(ctx, rueidis.CT(cache, time.Second))
+		case 4:
+			c.Receive(ctx, cmd, func(rueidis.PubSubMessage) {})
+		case 5:
+			c.DoStream(ctx, cmd)
+		default:
+			c.DoMultiStream(ctx, cmd)
+		}
+		verifReach("client")
+	}
+	verifAssert(h2.n == 1, "the outer hook sees the request exactly once")
+	verifAssert(h1.n == 1, "the inner hook sees the request exactly once")
+	verifAssert(target.calls == 1, "the underlying client is reached exactly once")
+}
